@@ -1,4 +1,59 @@
+(* C16 -- oneshot() and as_dict() change speed, never answers; safe across threads.
+   Statements only; proofs live in C16/Proofs*.v.  Model: C16/Model.v (transcription of
+   memoize_when_activated, Process.oneshot, Process.as_dict and the Linux memoized readers as a
+   line-level interleaving semantics lts_step and a sequential reading sq_step), specification:
+   C16/Spec.v.  code_now = the code in /repo (commit 7b727b3), code_before_fix / code_pre1948 =
+   the wrapper before that commit / before the issue-1948 handler. *)
 From PV Require Import C16.Spec C16.Proofs.
-Theorem C16_placeholder : code_now = mkVariant false true.
-Proof. exact placeholder. Qed.
-Print Assumptions C16_placeholder.
+Local Open Scope nat_scope.
+
+(* ---- threads: every interleaving (any schedule, any length), any number of threads, any programs *)
+
+(* 5. no AttributeError / KeyError of the cache plumbing ever reaches a caller *)
+Theorem C16_no_spurious_errors : forall vr f progs c th r,
+  handle_l3 vr = true -> Forall (Forall op_clean) progs ->
+  reach vr (init_cfg f progs) c -> In th (c_ths c) -> In r (t_res th) ->
+  r_out r <> Exc AttributeError /\ r_out r <> Exc KeyError.
+Proof. exact no_spurious_errors. Qed.
+Print Assumptions C16_no_spurious_errors.
+
+(* ... which is what the issue-1948 handler bought: without it a schedule lets AttributeError out *)
+Theorem C16_no_spurious_errors_pre1948_refuted :
+  exists sch, let c := run_sched code_pre1948 (init_cfg (fun _ => SAvail 1) progs_1948) sch in
+    Forall (Forall op_clean) progs_1948 /\
+    exists th r, nth_error (c_ths c) 1 = Some th /\ In r (t_res th) /\ r_out r = Exc AttributeError.
+Proof. exact no_spurious_errors_pre1948_refuted. Qed.
+Print Assumptions C16_no_spurious_errors_pre1948_refuted.
+
+(* 7. every value held by any cache dict (front level or reader level) was read after that dict
+   was created, i.e. after its block was entered *)
+Theorem C16_cache_values_from_block : forall f progs c cid C k v,
+  reach code_now (init_cfg f progs) c ->
+  nth_error (heap (c_sh c)) cid = Some C -> In (k, v) (c_ents C) ->
+  c_born C <= snd v /\ snd v <= clock (c_sh c).
+Proof. exact cache_values_from_block. Qed.
+Print Assumptions C16_cache_values_from_block.
+
+(* before commit 7b727b3 this failed: a plain caller's pre-block value landed in the next block's
+   dict; the block owner (thread 0) and the plain caller (thread 1) then returned it *)
+Theorem C16_cache_values_from_block_before_fix_refuted :
+  exists sch, let c := run_sched code_before_fix (init_cfg (fun _ => SAvail 1) progs_stale) sch in
+    (exists cid C k v, nth_error (heap (c_sh c)) cid = Some C /\ In (k, v) (c_ents C) /\ snd v < c_born C)
+    /\ stale_result c 0 = true /\ stale_result c 1 = true.
+Proof. exact cache_values_from_block_before_fix_refuted. Qed.
+Print Assumptions C16_cache_values_from_block_before_fix_refuted.
+
+(* the cache pointers never dangle, and whoever creates / removes dicts or has a block open holds the lock *)
+Theorem C16_no_dangling_cache_pointer : forall f progs c,
+  reach code_now (init_cfg f progs) c ->
+  (forall cid, fptr (c_sh c) = Some cid -> cid < length (heap (c_sh c))) /\
+  (forall cid, pptr (c_sh c) = Some cid -> cid < length (heap (c_sh c))).
+Proof. exact no_dangling_cache_pointer. Qed.
+Print Assumptions C16_no_dangling_cache_pointer.
+
+Theorem C16_block_owner_holds_lock : forall f progs c i th,
+  reach code_now (init_cfg f progs) c -> nth_error (c_ths c) i = Some th ->
+  (t_stk th <> [] \/ (exists k, t_pc th = PAct k) \/ (exists k, t_pc th = PDel k) \/ t_pc th = PTest) ->
+  exists m, lock (c_sh c) = Some (i, m).
+Proof. exact block_owner_holds_lock. Qed.
+Print Assumptions C16_block_owner_holds_lock.
